@@ -120,6 +120,43 @@ def scan(path):
     return out
 
 
+class _LocalPath(object):
+    """the LOCAL machine's view of the filesystem: it has nothing under the peer's root (the two sides of a transfer do not
+    share a filesystem; here they live in one process, so the separation is enforced on the names the library itself uses)"""
+
+    def __init__(self, remote_root):
+        self.remote_root = remote_root
+
+    def __getattr__(self, name):
+        return getattr(os.path, name)
+
+    def _foreign(self, p):
+        return isinstance(p, str) and os.path.abspath(p).startswith(self.remote_root)
+
+    def isfile(self, p):
+        return False if self._foreign(p) else os.path.isfile(p)
+
+    def isdir(self, p):
+        return False if self._foreign(p) else os.path.isdir(p)
+
+    def exists(self, p):
+        return False if self._foreign(p) else os.path.exists(p)
+
+
+class _LocalOS(object):
+    def __init__(self, remote_root):
+        self.path = _LocalPath(remote_root)
+        self._root = remote_root
+
+    def __getattr__(self, name):
+        return getattr(os, name)
+
+    def listdir(self, p):
+        if os.path.abspath(p).startswith(self._root):
+            raise FileNotFoundError(2, "No such file or directory (on the local machine)", p)
+        return os.listdir(p)
+
+
 def run_cases(cases):
     """cases: (direction, shape, chunk, filter name, size rotation offset).  One connection pair for the whole batch."""
     env.silence_unraisable()
@@ -136,8 +173,13 @@ def run_cases(cases):
         for ci, case in enumerate(cases):
             direction, shape, chunk, fname, rot = case[:5]
             CONTENT_KIND[0] = case[5] if len(case) > 5 else "pattern"
-            src = os.path.join(tmp, "s%d" % ci)
-            dst = os.path.join(tmp, "d%d" % ci)
+            # the source of an upload and the destination of a download are local; the other end is the peer's
+            lroot, rroot = os.path.join(tmp, "local"), os.path.join(tmp, "peer")
+            os.makedirs(lroot, exist_ok=True)
+            os.makedirs(rroot, exist_ok=True)
+            classic.os = _LocalOS(rroot)
+            src = os.path.join(lroot if direction == "upload" else rroot, "s%d" % ci)
+            dst = os.path.join(rroot if direction == "upload" else lroot, "d%d" % ci)
             sz = sizes_for(chunk)
             sz = sz[rot % len(sz):] + sz[:rot % len(sz)]
             model = build(src, shape, sz, [0, rot])
